@@ -460,12 +460,22 @@ func modeC07(e *Env) {
 		start := l.Boundaries()[0]
 		npk, _ := servedInfo(l, start)
 		var atts []AttemptPlan
+		all := faultPlans(l, start, "burst", 1, e.R)
 		for j := 0; j < 1+e.R.Intn(3); j++ {
 			a := defaultAttempt()
+			switch e.R.Intn(4) {
+			case 0:
+				// any fault kind of the session model (handler error, mapper faults, injected events, cancels, transport)
+				a = all[e.R.Intn(len(all))]
+			case 1:
+				// the master rejects SET @master_binlog_checksum: no dump request may follow
+				a.ConnFault = "set_err"
+			default:
+				a.Fault = &Fault{Kind: transportFaults[e.R.Intn(len(transportFaults))], At: e.R.Intn(npk + 1), Code: 1236, Msg: "x"}
+			}
 			if e.R.Intn(2) == 0 {
 				a.Pacing = "lockstep"
 			}
-			a.Fault = &Fault{Kind: transportFaults[e.R.Intn(len(transportFaults))], At: e.R.Intn(npk + 1), Code: 1236, Msg: "x"}
 			atts = append(atts, a)
 		}
 		atts = append(atts, defaultAttempt())
@@ -540,6 +550,16 @@ func stopPlans(l *Log, start Pos, r *rand.Rand, stride int) []AttemptPlan {
 		a.CancelAfterReturn = true
 		out = append(out, a)
 	}
+	// a slow log sink delays the reader between reading the terminal packet and publishing its reason
+	for _, k := range transportFaults {
+		for _, pacing := range []string{"burst", "lockstep"} {
+			a := defaultAttempt()
+			a.Pacing = pacing
+			a.Fault = &Fault{Kind: k, At: r.Intn(npk + 1), Code: 1888, Msg: "slow sink " + itoa(r.Intn(100))}
+			a.LogDelayMs = 40
+			out = append(out, a)
+		}
+	}
 	// connection-stage failures
 	for _, cf := range []string{"handshake_close", "handshake_err", "set_err", "dump_close", "dump_err"} {
 		a := defaultAttempt()
@@ -572,6 +592,14 @@ func modeC05(e *Env) {
 				atts := []AttemptPlan{p, defaultAttempt()}
 				if id%5 == 0 {
 					atts = []AttemptPlan{defaultAttempt(), p, defaultAttempt()}
+				}
+				if id%4 == 1 && p.Fault != nil {
+					// the caller retries after its handler failed WITHOUT asking Error() in between (Stream already
+					// returned the error), and the retry is ended by the fault
+					h := defaultAttempt()
+					h.HandlerErrAt = 0
+					h.SkipError = true
+					atts = []AttemptPlan{h, p, defaultAttempt()}
 				}
 				RunStreamScenario(e.Rec, &StreamScenario{ID: id, Fam: "c05", Log: l, Start: start, ServerID: 13, Attempts: atts, Note: "stop"})
 			}
@@ -607,6 +635,53 @@ func modeC08(e *Env) {
 		id++
 		RunStreamScenario(e.Rec, &StreamScenario{ID: id, Fam: "c08", Log: l, Start: l.Boundaries()[0], ServerID: 21,
 			Attempts: []AttemptPlan{a}, Note: "stability"})
+	}
+	// repeated "zero" values of every kind: values an implementation may be tempted to hand out from a shared constant
+	for i := 0; i < e.N(12, 120); i++ {
+		cfg := cfgs[e.R.Intn(len(cfgs))]
+		l := &Log{Cfg: cfg}
+		t := &Table{ID: 301, DB: "dz", Name: "tzero"}
+		for c := 0; c < 2+e.R.Intn(5); c++ {
+			col := randomCol(e.R)
+			col.Name = "z" + itoa(c)
+			col.Nullable = true
+			t.Cols = append(t.Cols, col)
+		}
+		f := &LogFile{Name: "mysql-bin.000001"}
+		l.Files = []*LogFile{f}
+		ts := uint32(1600000000)
+		for u := 0; u < 3; u++ {
+			ev := &Ev{K: pickS(e.R, "write", "update"), TS: ts, Tbl: t}
+			for rw := 0; rw < 2; rw++ {
+				mk := func() []Cell {
+					var img []Cell
+					for ci := range t.Cols {
+						raw := zeroValue(&t.Cols[ci])
+						if e.R.Intn(4) == 0 {
+							raw = genCell(e.R, &t.Cols[ci], 12)
+						}
+						img = append(img, Cell{St: "val", Bytes: raw})
+					}
+					return img
+				}
+				none := make([]Cell, len(t.Cols))
+				for ci := range none {
+					none[ci] = Cell{St: "absent"}
+				}
+				rp := RowPair{B: none, A: mk()}
+				if ev.K == "update" {
+					rp.B = mk()
+				}
+				ev.Rows = append(ev.Rows, rp)
+			}
+			f.Units = append(f.Units, &Unit{U: "autorow", Evs: []*Ev{{K: "tablemap", TS: ts, Tbl: t}, ev}})
+		}
+		l.Layout()
+		a := defaultAttempt()
+		a.Scribble = true
+		id++
+		RunStreamScenario(e.Rec, &StreamScenario{ID: id, Fam: "c08", Log: l, Start: l.Boundaries()[0], ServerID: 21,
+			Attempts: []AttemptPlan{a}, Note: "repeated-zero-values"})
 	}
 	// zero timestamps with and without fractions: values that an implementation may be tempted to share
 	for i := 0; i < e.N(6, 40); i++ {
@@ -709,6 +784,31 @@ func modeC15b(e *Env) {
 		}
 		l.Layout()
 		atts := []AttemptPlan{defaultAttempt()}
+		if i%6 == 3 && len(A.Cols) > 1 {
+			// A's id and name re-announced with one column fewer (DROP COLUMN) while the mapper still knows the old table:
+			// the rows must be rejected with an error, not mis-attributed
+			A4 := &Table{ID: 1, DB: A.DB, Name: A.Name, Cols: append([]Col{}, A.Cols[:len(A.Cols)-1]...)}
+			u := &Unit{U: "txxid"}
+			u.Evs = append(u.Evs, &Ev{K: "query", TS: ts, Cat: "begin", DB: "d", SQL: "BEGIN"},
+				&Ev{K: "tablemap", TS: ts, Tbl: A}, genRowsEv(e.R, "write", A, gp, ts),
+				&Ev{K: "xid", TS: ts})
+			u2 := &Unit{U: "txxid"}
+			u2.Evs = append(u2.Evs, &Ev{K: "query", TS: ts, Cat: "begin", DB: "d", SQL: "BEGIN"},
+				&Ev{K: "tablemap", TS: ts, Tbl: A4}, genRowsEv(e.R, pickS(e.R, "write", "update", "delete"), A4, gp, ts),
+				&Ev{K: "xid", TS: ts})
+			before := 0
+			for _, fu := range f.Units {
+				_ = fu
+				before++
+			}
+			f.Units = append(f.Units, u, u2)
+			l.Layout()
+			mt := l.Tables()
+			mt[A.DB+"."+A.Name] = A
+			RunStreamScenario(e.Rec, &StreamScenario{ID: i + 1, Fam: "c15", Log: l, Start: l.Boundaries()[0], ServerID: 15,
+				Attempts: []AttemptPlan{defaultAttempt()}, Note: "column-count-change", MapperTables: mt, RejectAfterP1: before + 1 + 1})
+			continue
+		}
 		if i%5 == 4 {
 			// the mapper answers with a table of another column count: error, not mis-attribution
 			a := defaultAttempt()
@@ -730,4 +830,35 @@ func sortStrings(a []string) {
 			a[j], a[j-1] = a[j-1], a[j]
 		}
 	}
+}
+
+// zeroValue is the encoding of the type's zero / empty value.
+func zeroValue(c *Col) []byte {
+	switch c.Kind {
+	case "tiny", "year":
+		return []byte{0}
+	case "short":
+		return make([]byte, 2)
+	case "int24", "date", "time":
+		return make([]byte, 3)
+	case "long", "float", "timestamp":
+		return make([]byte, 4)
+	case "longlong", "double", "datetime":
+		return make([]byte, 8)
+	case "timestamp2":
+		nb, _ := fracStorage(c.P1)
+		return make([]byte, 4+nb)
+	case "datetime2":
+		nb, _ := fracStorage(c.P1)
+		return append(beN(0x8000000000, 5), make([]byte, nb)...)
+	case "time2":
+		return time2Encode(0, 0, 0, 0, c.P1, false)
+	case "decimal":
+		return decimalEncode(c.P1, c.P2, false, make([]byte, c.P1))
+	case "enum", "set":
+		return make([]byte, c.P1)
+	case "bit":
+		return make([]byte, (c.P1+7)/8)
+	}
+	return emptyValue(c)
 }
